@@ -8,11 +8,14 @@ STYLES = [dict(sep='\n', paren=True, upper=False, header=True, delim='{}'),
           dict(sep=';', paren=True, upper=False, header=False, delim='{}'),
           dict(sep='\n', paren=False, upper=True, header=True, delim='""'),
           dict(sep=';', paren=False, upper=False, header=False, delim="''"),
-          dict(sep='\n', paren=True, upper=True, header=False, delim='{}')]
+          dict(sep='\n', paren=True, upper=True, header=False, delim='{}'),
+          # DS9's own way of writing text regions ("# text(x,y) text={..}"), a blank after every comma
+          dict(sep='\n', paren=True, upper=False, header=True, delim='{}', hashtext=True, commasp=True),
+          dict(sep='\n', paren=True, upper=True, header=False, delim='""', hashtext=True)]
 
 
 # comments are comments whatever their first word is (only the exact forms '# text(' / '# composite(' are region lines)
-COMMENTS = ['# just a comment circle(1,2,3)', '# text labels for the sources follow', '# composite of two fields', '# textual note', '#', '# text: see the catalogue',
+COMMENTS = ['# just a comment circle(1,2,3)', '# old: circle(1,2,3); circle(4,5,6)', '# text labels for the sources follow', '# composite of two fields', '# textual note', '#', '# text: see the catalogue',
             '# Region file format: DS9 version 4.1']
 COMMENT = [0]
 UNSUPPORTED_FRAMES = ['physical', 'wcs', 'detector', 'wcsa', 'linear', 'amplifier', 'wcs0', 'tile', 'wcsz']
@@ -30,8 +33,25 @@ def sexa(v, style):
     return f'{sign}{a}d{m}m{s:.3f}s'
 
 
+def spelled(x, sp):
+    """the decimal number x (integer-valued for the spellings other than 'fixed') in one of its spellings"""
+    if sp == 'dot':
+        return f'{int(x)}.'
+    if sp == 'int':
+        return f'{int(x)}'
+    if sp == 'exp':
+        return f'{x:.4e}'
+    if sp == 'plus' and x >= 0:
+        return f'+{x:.3f}'
+    return f'{x:.3f}'
+
+
 def tok(t):
     n, v = t['n'], t['v']
+    if t.get('sp', 'fixed') != 'fixed':
+        if v % 1000:
+            raise ValueError('spellings are for integer values')
+        return spelled(v / 1000, t['sp']) + {'plain': '', 'd': 'd', 'i': 'i', 'asec': '"', 'amin': "'"}[n]
     if n == 'plain':
         return f'{v / 1000:.3f}'
     if n == 'd':
@@ -96,7 +116,12 @@ def line(l, st):
         return up('composite') + '(10,20,0) || composite=1 ' + props(l['props'], st)
     if k == 'region':
         toks = [tok(t) for t in l['toks']]
-        body = ('(' + ','.join(toks) + ')') if st['paren'] else (' ' + ' '.join(toks))
+        comma = ', ' if st.get('commasp') else ','
+        body = ('(' + comma.join(toks) + ')') if st['paren'] else (' ' + ' '.join(toks))
+        if l['shape'] == 'text' and st.get('hashtext') and l['sign'] == '' and not l['cont']:
+            # the form DS9 itself writes for text regions; the properties follow without a second '#'
+            pr = props(l['props'], st)
+            return '# ' + up('text') + body + ((' ' + pr) if pr else '')
         s = l['sign'] + up(l['shape']) + body
         if l['cont']:
             s += ' ||'
@@ -110,7 +135,12 @@ def line(l, st):
 
 
 def render(lines, st):
-    body = st['sep'].join(line(l, st) for l in lines)
+    # a comment occupies a whole physical line: it starts one and runs to its end
+    body = ''
+    for j, l in enumerate(lines):
+        if j:
+            body += '\n' if 'comment' in (lines[j - 1]['k'], l['k']) else st['sep']
+        body += line(l, st)
     head = '# Region file format: DS9 version 4.1\n' if st['header'] else ''
     return head + body + '\n'
 
